@@ -51,6 +51,13 @@ structure Call where
   toks : List String
   inp : List (List String)
 
+/-- a stored graph snapshot: tables, mask and base levels as copied by `flow_snapshot::_save` -/
+structure Snap where
+  name : String
+  g : Graph F
+  mask : Nat → Bool
+  isBase : Nat → Bool
+
 structure St where
   topo : Topo F := { n := 0, nmax := 0, nbrs := fun _ => [] }
   gstatus : List Nat := []
@@ -59,7 +66,7 @@ structure St where
   g : Graph F := Graph.empty
   mask : Nat → Bool := fun _ => false
   isBase : Nat → Bool := fun _ => false
-  snaps : List (String × Graph F × (Nat → Bool) × (Nat → Bool)) := []
+  snaps : List Snap := []
 
 def findInp (c : Call) (key : String) : Option (List String) :=
   (c.inp.find? (fun l => l.head? == some key)).map List.tail
@@ -147,20 +154,94 @@ def callGraph (c : Call) (st : St) : St × List String :=
 structure Run where
   elev : Nat → F
   g : Graph F
-  snaps : List (String × Graph F × (Nat → Bool) × (Nat → Bool))
+  snaps : List Snap
   esnaps : List (String × (Nat → F))
   hang : Bool := false
 
-def applyOp (env : Env F) (r : Run) (k : Nat) (perms : List (Nat × List Nat)) : Op → Run
+/-! ### what `_save` copies: driven by the member list regenerated from flow_snapshot.hpp -/
+
+open Fs.Gen in
+def coverOf (single : Bool) (member : String) : Cover :=
+  match snapshotCopy.find? (·.1 == member) with
+  | some (_, cs, cm) => if single then cs else cm
+  | none => .none
+
+open Fs.Gen in
+def coverRow {β : Type} (c : Cover) (l : List β) : List β :=
+  match c with
+  | .whole => l
+  | .col0 => l.take 1
+  | .none => []
+
+open Fs.Gen in
+def minCover (a b : Cover) : Cover :=
+  match a, b with
+  | .none, _ | _, .none => .none
+  | .col0, _ | _, .col0 => .col0
+  | .whole, .whole => .whole
+
+open Fs.Gen in
+/-- the snapshot's observable tables after `_save(graph_impl, snapshot)`; `single` = the snapshot
+graph was created single-direction -/
+def snapCopy (single : Bool) (g : Graph F) : Graph F :=
+  let rc := coverOf single "m_receivers_count"
+  let dc := coverOf single "m_donors_count"
+  { recv := fun i => coverRow (minCover rc (coverOf single "m_receivers")) (g.recv i),
+    rdist := fun i => coverRow (minCover rc (coverOf single "m_receivers_distance")) (g.rdist i),
+    rweight := fun i => coverRow (minCover rc (coverOf single "m_receivers_weight")) (g.rweight i),
+    donors := fun i => coverRow (minCover dc (coverOf single "m_donors")) (g.donors i),
+    dfs := coverRow (coverOf single "m_dfs_indices") g.dfs,
+    bfs := match minCover (coverOf single "m_bfs_indices") (coverOf single "m_bfs_levels") with
+      | .whole => g.bfs
+      | _ => [] }
+
+open Fs.Gen in
+def snapMask (single : Bool) (m : Nat → Bool) : Nat → Bool :=
+  match minCover (coverOf single "m_mask") (coverOf single "m_mask_initialized") with
+  | .whole => m
+  | _ => fun _ => false
+
+open Fs.Gen in
+def snapBase (single : Bool) (b : Nat → Bool) : Nat → Bool :=
+  match coverOf single "m_base_levels" with
+  | .whole => b
+  | _ => fun _ => false
+
+/-- direction in force before operator `k` (decides whether a graph snapshot is single-column) -/
+def dirBefore (ops : List Op) (k : Nat) : Fs.OpSeq.Dir :=
+  Fs.OpSeq.dirAfter ((ops.take k).map flagsOf)
+
+abbrev Hook := Env F → Run → Nat → List (Nat × List Nat) → Bool → Bool → Run
+
+/-- one operator of the sequence applied to the running state (`apply` of each operator class) -/
+def stepOp (hook : Hook) (env : Env F) (perms : List (Nat × List Nat)) (snapSingle : String → Bool)
+    (r : Run) (ok : Op × Nat) : Run :=
+  match ok.1 with
   | .single t => { r with g := singleRouter S env (decide (t > 1)) r.elev }
   | .multi p => { r with g := multiRouter S p env r.elev }
   | .pflood => { r with elev := look (pflood S env r.elev) 0.0 }
-  | .mst _ _ => let _ := (k, perms); r   -- filled in by FsModel.Mst (see Driver2)
+  | .mst b cv => hook env r ok.2 perms b cv
   | .snap nm g e =>
-    let r := if g then { r with snaps := (r.snaps.filter (·.1 != nm)) ++ [(nm, r.g, env.mask, env.isBase)] } else r
+    let r := if g then
+        { r with snaps := (r.snaps.filter (·.name != nm)) ++
+            [{ name := nm, g := snapCopy (snapSingle nm) r.g, mask := snapMask (snapSingle nm) env.mask,
+               isBase := snapBase (snapSingle nm) env.isBase }] }
+      else r
     if e then { r with esnaps := (r.esnaps.filter (·.1 != nm)) ++ [(nm, r.elev)] } else r
 
-def callUpdate (c : Call) (st : St) (mstHook : Env F → Run → Nat → List (Nat × List Nat) → Bool → Bool → Run) :
+/-- `update_routes`: the operators applied in order -/
+def runOps (hook : Hook) (env : Env F) (perms : List (Nat × List Nat)) (snapSingle : String → Bool)
+    (r0 : Run) (ops : List Op) : Run :=
+  ops.zipIdx.foldl (stepOp hook env perms snapSingle) r0
+
+/-- a snapshot graph is single-column iff the direction in force where its name was first
+registered is single (`std::map::insert` keeps the first registration) -/
+def snapSingleOf (ops : List Op) (nm : String) : Bool :=
+  match ops.zipIdx.find? (fun ok => match ok.1 with | .snap n true _ => n == nm | _ => false) with
+  | some ok => dirBefore ops ok.2 == .single
+  | none => true
+
+def callUpdate (c : Call) (st : St) (mstHook : Hook) :
     St × List String :=
   let n := st.topo.n
   let mask := fromList false (((findInp c "mask").getD []).map (· == "1"))
@@ -171,17 +252,14 @@ def callUpdate (c : Call) (st : St) (mstHook : Env F → Run → Nat → List (N
   let z := fromList 0.0 ((c.toks.drop 1).map hexF)
   let env : Env F := { topo := st.topo, mask := mask, seeds := seeds, isBase := isBase }
   let r0 : Run := { elev := z, g := st.g, snaps := st.snaps, esnaps := [] }
-  let r := (ops.zipIdx).foldl (fun r ok =>
-      match ok.1 with
-      | .mst b cv => mstHook env r ok.2 perms b cv
-      | o => applyOp env r ok.2 perms o) r0
+  let r := runOps mstHook env perms (snapSingleOf ops) r0 ops
   let same := !(ops.any (fun o => (flagsOf o).elevUpdated))
   let idx := List.range n
   let outs := [ "O update ok", "O input_unchanged 1", line "same_array" (if same then "1" else "0"),
       line "elev" (joinF (idx.map r.elev)) ] ++ dumpGraph "" n r.g ++
       (ops.filterMap (fun o => match o with | .snap nm true _ => some nm | _ => none)).flatMap
-        (fun nm => match r.snaps.find? (·.1 == nm) with
-          | some (_, g, _, _) => dumpGraph ("snap:" ++ nm ++ ":") n g
+        (fun nm => match r.snaps.find? (·.name == nm) with
+          | some sn => dumpGraph ("snap:" ++ nm ++ ":") n sn.g
           | none => []) ++
       (ops.filterMap (fun o => match o with | .snap nm _ true => some nm | _ => none)).map
         (fun nm => match r.esnaps.find? (·.1 == nm) with
